@@ -56,6 +56,11 @@ def unhx(s):
 
 # ------------------------------------------------------------------ schema generation
 
+ABSENT = [{"oneof"}, {"optional"}, {"oneof", "repeated", "map"}, {"map"}, {"repeated"}, {"oneof", "optional"}, {"oneof", "map"},
+          {"optional", "repeated", "map"}, {"oneof", "repeated"}, {"repeated", "map"}, {"oneof", "optional", "repeated", "map"},
+          {"optional", "map"}, {"optional", "repeated"}, {"oneof", "optional", "map"}, {"oneof", "optional", "repeated"}]
+
+
 def gen_schema(rng, idx, force_service=True):
     """returns dict(protos={name: text}, pkg=..., other_pkg=..., messages=[...], enums=[...], service=...)"""
     pkg = rng.choice(["c18gen", "c18gen.v1", "alpha.beta.gamma", "x"])
@@ -102,12 +107,17 @@ def gen_schema(rng, idx, force_service=True):
         w = rng.choice(sorted(WRAPPERS))
         return ("wrap", "google.protobuf." + w)
 
+    # features that are ABSENT from the whole package (imports and helper definitions of the generated module are gated on
+    # "some message of the package uses X": a package with proto3-optional fields but no oneof at all, with no repeated
+    # field, no map … must import just as well).
+    absent = ABSENT[(idx // 2) % len(ABSENT)] if idx % 2 else set()      # every other schema, in a fixed order
+    shapes = [x for x in ["plain", "plain", "repeated", "optional", "map"] if x not in absent]
     for mi, m in enumerate(msgs):
         num = 0
         nf = rng.randint(2, 7)
         for fi in range(nf):
             num += rng.choice([1, 1, 2, 14, 1000]) if fi else rng.choice([1, 1, 3, 16])
-            shape = rng.choice(["plain", "plain", "repeated", "optional", "map"])
+            shape = rng.choice(shapes)
             name = "f%d" % fi
             if shape == "map":
                 vk = pick_type(allow_wrapper=False)
@@ -117,7 +127,7 @@ def gen_schema(rng, idx, force_service=True):
             else:
                 t = pick_type(allow_wrapper=shape != "repeated" or rng.random() < 0.3)
                 m["fields"].append({"name": "%s_%s" % (name, shape[:3]), "num": num, "shape": shape, "type": t})
-        for gi in range(rng.choice([0, 1, 1, 2])):
+        for gi in range(0 if "oneof" in absent else rng.choice([0, 1, 1, 2])):
             members = []
             for k in range(rng.randint(1, 3)):
                 num += rng.choice([1, 2, 5])
@@ -897,6 +907,8 @@ def run(chk, drv):
         check_schema(sch, values, labels, drv, sink)
         flush(chk, sink)
         chk.count("schemas")
+        main = sch["protos"]["main.proto"]
+        chk.count("schemas_%s_oneof_%s_optional" % ("with" if " oneof " in main else "without", "with" if " optional " in main else "without"))
         chk.count("services_methods", len(sch["service"]["methods"]) if sch["service"] else 0)
 
 
